@@ -127,6 +127,22 @@ def oracle(spec, opts, run):
                                  'test %s (%s) raised but is in neither the failures nor the errors the runner recorded'
                                  % (tid, raised[tid])))
                     break
+        elif run.runner is not None:
+            # layers ran in subprocesses: what a child reports is recorded by the parent under the test's printed name
+            names = set()
+            for entry in list(run.runner.failures) + list(run.runner.errors):
+                try:
+                    names.add(str(entry[0]))
+                except Exception:  # noqa: BLE001
+                    pass
+            for tid in sorted(raised):
+                rec = w.tests.get(tid)
+                if rec is not None and raised[tid] != 'flaky' and not any(
+                        n == rec['str'] or n.startswith(rec['str'] + ' ') for n in names):   # (subtests: name + description)
+                    viol.append(('C04/not-recorded/test-in-subprocess',
+                                 'test %s (%s) raised in a layer subprocess but is in neither the failures nor the errors '
+                                 'the runner recorded (%s)' % (tid, raised[tid], sorted(names)[:4])))
+                    break
         if 'flaky' in raised.values():
             labels.append('raises-in-one-iteration-only')
     # "... or layer": a layer setUp / tearDown that raised (anything but the tear-down's NotImplementedError) is in the
